@@ -8,6 +8,8 @@ import (
 	"regexp"
 	"sort"
 	"strings"
+	"sync"
+	"sync/atomic"
 	"time"
 )
 
@@ -89,7 +91,10 @@ type Collector struct {
 	seed       uint64
 	tier       string
 	lastMark   []byte
-	markTime   time.Time
+	markNanos  atomic.Int64 // read by the watchdog goroutine
+	markMu     sync.Mutex   // guards lastMark/Unit snapshots for the watchdog
+	wdMark     string
+	wdUnit     int
 	maxSamples int
 	Unit       int `json:"-"`
 }
@@ -179,11 +184,14 @@ func (c *Collector) Violate(v *Violation) {
 // Mark records, outside the Go heap, which Case is about to execute, so that
 // a runtime fatal error of this process can be attributed.
 func (c *Collector) Mark(cs Case) {
-	c.markTime = time.Now()
+	c.markNanos.Store(time.Now().UnixNano())
 	if c.markFile == nil {
 		return
 	}
 	bs, _ := json.Marshal(cs)
+	c.markMu.Lock()
+	c.wdMark, c.wdUnit = string(bs), c.Unit
+	c.markMu.Unlock()
 	bs = append(bs, '\n')
 	if len(bs) < len(c.lastMark) {
 		pad := make([]byte, len(c.lastMark)-len(bs))
@@ -197,7 +205,13 @@ func (c *Collector) Mark(cs Case) {
 }
 
 // Touch tells the watchdog that progress is being made without changing the Case.
-func (c *Collector) Touch() { c.markTime = time.Now() }
+func (c *Collector) Touch() { c.markNanos.Store(time.Now().UnixNano()) }
+
+func (c *Collector) watchdogView() (since time.Duration, unit int, mark string) {
+	c.markMu.Lock()
+	defer c.markMu.Unlock()
+	return time.Since(time.Unix(0, c.markNanos.Load())), c.wdUnit, c.wdMark
+}
 
 func (c *Collector) finish() {
 	c.SetList = map[string][]uint64{}
